@@ -85,5 +85,59 @@ def c16_extra(tier, seed, lean):
     return res
 
 
-def register(EXTRA, EXTRA_SEARCH):
+# --------------------------------------------------------------------------------------------------------------
+# C19: layout table from the compilers
+# --------------------------------------------------------------------------------------------------------------
+import tables
+
+
+def c19_pre(tier, seed):
+    rows, err = tables.layout_table(tier)
+    if err:
+        return [dict(theorem='(table) layout', why='the layout table program does not compile against the header: ' + err[-800:])]
+    tables.write_layout_lean(rows)
+    return []
+
+
+def c19_extra(tier, seed, lean):
+    res = dict(corr=[], w=[], evaluations=0, cases=0, distinct=0, samples=[], info={})
+    cxxs = ['clang++'] if tier == 'quick' else ['clang++', 'g++']
+    first = None
+    for cxx in cxxs:
+        rows, err = tables.layout_table(tier, cxx)
+        if err:
+            res['corr'].append(dict(why='layout table (' + cxx + ') does not compile: ' + err[-500:], op='-', config=cxx, impl='', model='', case=[]))
+            continue
+        if first is None:
+            first = rows
+        elif rows != first:
+            res['corr'].append(dict(why='g++ and clang++ disagree on the layout table', op='-', config=cxx, impl='', model='', case=[]))
+        seen = set()
+        for r in rows:
+            s, a, w, k, ka, size0, d, sizeD, sizeD1, size1, alignD, aligned, icap, sdef = r
+            res['evaluations'] += 1
+            seen.add((w, k, a, sizeD, d))
+            rowtxt = 'row=%d,%d,%d,%d,%d ' % (s, a, w, k, ka)
+            opt = (sizeD <= 64 and sizeD1 > 64) or (d == 1 and size1 > 64)
+            if not opt:
+                cls = 'classA' if sizeD1 <= 64 else ('classB' if d > 1 and sizeD > 64 else 'unclassified')
+                res['w'].append(dict(msg='C19 default inline capacity is not the largest that fits in 64 bytes [%s] %s: default %d -> sizeof %d, %d -> sizeof %d, 1 -> sizeof %d'
+                                     % (cls, rowtxt, d, sizeD, d + 1, sizeD1, size1), op=rowtxt, config=cxx, case=[], impl=str(r)))
+            if not aligned:
+                res['w'].append(dict(msg='C19 inline buffer not aligned for the element type ' + rowtxt, op=rowtxt, config=cxx, case=[], impl=str(r)))
+            if not icap:
+                res['w'].append(dict(msg='C19 inline_capacity() does not report the template argument ' + rowtxt, op=rowtxt, config=cxx, case=[], impl=str(r)))
+            if k == 0 and size0 != (8 + 2 * w + 7) // 8 * 8:
+                res['w'].append(dict(msg='C19 empty container with a stateless allocator is not pointer + two size_types ' + rowtxt, op=rowtxt, config=cxx, case=[], impl=str(r)))
+        res['cases'] += len(rows)
+        res['distinct'] = max(res['distinct'], len(seen))
+        if not res['samples']:
+            res['samples'] = [dict(row=dict(s=r[0], a=r[1], w=r[2], k=r[3], ka=r[4], sizeof_empty=r[5], default_N=r[6], sizeof_default=r[7], sizeof_next=r[8])) for r in rows[5:7]]
+    res['info'] = dict(c19_compilers=cxxs, c19_rows=res['cases'])
+    return res
+
+
+def register(EXTRA, EXTRA_SEARCH, PRE):
     EXTRA['C16'] = c16_extra
+    EXTRA['C19'] = c19_extra
+    PRE['C19'] = c19_pre
